@@ -148,7 +148,7 @@ type zoo struct {
 	Ci   string   `json:"k_e-y,case:ignore"`
 	Rec  *zoo     `json:"<&>"`
 	ZooEmb
-	Inl map[string]jsontext.Value `json:",inline"`
+	Inl map[string]jsontext.Value `json:",embed"`
 }
 
 func sweepTargets() []any {
